@@ -80,19 +80,33 @@ def check_proofs(pid, theorems):
             "checker_cmd": "cd /verif/coq && make (coq_makefile, full .vo build) && " + cmd}
 
 # ---------------------------------------------------------------- model driver
-def run_model(requests, timeout=900):
-    """requests: list of python s-expression values; returns list of results (parsed)."""
-    if not requests:
-        return []
-    data = "\n".join(sexp.dumps(r) for r in requests) + "\n"
+def _run_model_chunk(args):
+    data, n, timeout = args
     p = subprocess.run(["bash", "-c", "ulimit -s unlimited 2>/dev/null; exec %s" % os.path.join(VERIF, "ocaml", "driver")],
                        input=data, stdout=subprocess.PIPE, stderr=subprocess.PIPE, text=True, timeout=timeout)
     lines = p.stdout.split("\n")
     if lines and lines[-1] == "":
         lines.pop()
-    if len(lines) != len(requests):
-        raise RuntimeError("model driver answered %d of %d requests (rc=%s): %s" % (len(lines), len(requests), p.returncode, p.stderr[-500:]))
-    return [sexp.loads(l) for l in lines]
+    if len(lines) != n:
+        raise RuntimeError("model driver answered %d of %d requests (rc=%s): %s" % (len(lines), n, p.returncode, p.stderr[-500:]))
+    return lines
+
+def run_model(requests, timeout=900):
+    """requests: list of python s-expression values; returns list of results (parsed).
+    The requests are independent: they are answered by several driver processes side by side, in order."""
+    if not requests:
+        return []
+    texts = [sexp.dumps(r) for r in requests]
+    size = max(50, (len(texts) + 7) // 8) if len(texts) > 200 else len(texts)
+    chunks = [texts[i:i + size] for i in range(0, len(texts), size)]
+    args = [("\n".join(c) + "\n", len(c), timeout) for c in chunks]
+    if len(chunks) == 1:
+        parts = [_run_model_chunk(args[0])]
+    else:
+        from concurrent.futures import ThreadPoolExecutor
+        with ThreadPoolExecutor(max_workers=8) as ex:
+            parts = list(ex.map(_run_model_chunk, args))
+    return [sexp.loads(l) for part in parts for l in part]
 
 # ---------------------------------------------------------------- implementation workers
 class CaseTimeout(Exception):
